@@ -16,6 +16,13 @@ IMPORTS = {
         ("C06", ["C06.D1", "C06.D2", "C06.W1", "C06.W2"], "a default the validator accepts is one the renderer can render (no panic while rendering, no ill-typed default expression) and every shared default fn the output names is defined"),
         ("C14", ["C14.D1"], "the two places that decide how a map type is rendered agree, so the `skip_serializing_if` predicate names a method of the field's actual type"),
     ],
+    "C04": [
+        ("C02", ["C02.D1"], "a tagged enum is recognised only from the shape serde's representation produces (and requires what serde requires)"),
+        ("C03", ["C03.D1", "C03.D2", "C03.D4"], "the serde attributes that fix the wire format (representation, tag/content strings, renames, default/skip pairs) come from the schema's own names and the member's type"),
+        ("C08", ["C08.D1"], "renames carry the raw JSON name exactly when the identifier differs"),
+        ("C05", ["C05.W2"], "closed objects stay closed and required members stay required"),
+        ("C06", ["C06.W1"], "both ingestion routes finalise every type they create"),
+    ],
     "C02": [
         ("C10", ["C10.D1", "C10.D2", "C10.D3", "C10.D4", "C10.D6", "C10.D7"], "the scalar chosen can represent every admitted value, so every valid number/string deserializes"),
         ("C09", ["C09.D5", "C09.D1"], "a merge does not drop enum values of the right JSON type and does not declare a satisfiable conjunction empty: instances valid under the allOf stay representable"),
